@@ -20,7 +20,7 @@ def classify(line):
     # they excuse nothing; the key only names the replay file).  Both need two live endpoints on one interface name at some point
     # ("shared"); the first needs an endpoint that changes its interface name, the second needs a batch that touches
     # two different endpoints between two CompleteDeferredWork calls.  Any failing case without these shapes is new.
-    tags = line.get("tags", [])
+    tags = line.get("tags") or []
     if "panic" in tags or "shared" not in tags:
         return None
     if "rename" in tags:
